@@ -141,7 +141,8 @@ def helper_checks(ctx, rule="C06.R2"):
     ctx.ob(rule, fi, good, "stream_write succeeds only if the stream reports exactly `length` bytes written", key="write: short write")
     nonb = [p for p in paths if N.mk_not(isb) in p.guards()]
     ctx.ob(rule, fi, bool(nonb) and all(p.outcome[0] == "raise" and is_error_class(M, p.outcome[1].get("cls")) for p in nonb), "non-bytes data is a ConstructError", key="write: non-bytes")
-    ctx.floor(rule, 16)
+    unused_parameters(ctx, rule, lambda f: f.cls is None and f.name.startswith("stream_"))
+    ctx.floor(rule, 16 + 10)
 
 
 def escaping(ctx, S):
